@@ -65,6 +65,11 @@ def _tail_only_returns(fn):
         if isinstance(last, ast.If):
             mark(last.body)
             mark(last.orelse)
+        elif isinstance(last, ast.Try) and not last.orelse and not last.finalbody:
+            # `try: ...; return A  except E: ...; return B` as the last statement: the value expressions stay inside the try
+            mark(last.body)
+            for h in last.handlers:
+                mark(h.body)
     mark(fn.body)
     return all(id(r) in tails for r in _returns(fn))
 
@@ -226,8 +231,8 @@ def _expand(call, helper, is_method, context, target, caller):
         return None
     rets = _returns(helper)
     valued = [r for r in rets if r.value is not None]
-    if context == "stmt" and valued:
-        return None
+    if context == "stmt" and valued and not all(isinstance(r.value, ast.Constant) for r in valued):
+        return None     # (a constant result that the caller discards - a cdef method's `return 0` status - is dropped below)
     multi_assign = False
     if context == "assign":
         if len(rets) != 1 or rets[0] is not helper.body[-1] or rets[0].value is None:
@@ -243,6 +248,8 @@ def _expand(call, helper, is_method, context, target, caller):
                     return True
                 if isinstance(last, ast.If) and last.orelse:
                     return ends(last.body) and ends(last.orelse)
+                if isinstance(last, ast.Try) and not last.orelse and not last.finalbody and last.handlers:
+                    return ends(last.body) and all(ends(h.body) for h in last.handlers)
                 return False
             if not (valued and len(valued) == len(rets) and ends(helper.body)):
                 return None
@@ -280,7 +287,7 @@ def _expand(call, helper, is_method, context, target, caller):
     if context == "stmt":
         # a trailing bare `return` is dropped
         def strip(stmts):
-            if stmts and isinstance(stmts[-1], ast.Return) and stmts[-1].value is None:
+            if stmts and isinstance(stmts[-1], ast.Return) and (stmts[-1].value is None or isinstance(stmts[-1].value, ast.Constant)):
                 stmts.pop()
                 if not stmts:
                     stmts.append(ast.Pass())
@@ -288,6 +295,10 @@ def _expand(call, helper, is_method, context, target, caller):
                 strip(stmts[-1].body)
                 if stmts[-1].orelse:
                     strip(stmts[-1].orelse)
+            elif stmts and isinstance(stmts[-1], ast.Try) and not stmts[-1].orelse and not stmts[-1].finalbody:
+                strip(stmts[-1].body)
+                for h in stmts[-1].handlers:
+                    strip(h.body)
         strip(body)
         if not body:
             body = [ast.Pass()]
@@ -303,6 +314,10 @@ def _expand(call, helper, is_method, context, target, caller):
             elif isinstance(last, ast.If):
                 to_assign(last.body)
                 to_assign(last.orelse)
+            elif isinstance(last, ast.Try):
+                to_assign(last.body)
+                for h in last.handlers:
+                    to_assign(h.body)
         to_assign(body)
     elif context == "assign":
         ret = body.pop()
@@ -317,6 +332,22 @@ def _expand(call, helper, is_method, context, target, caller):
                 n.end_lineno = getattr(n, "lineno", call.lineno)
                 n.end_col_offset = 0
     return out
+
+
+def _guards_to_else(helper):
+    """   if c: [..;] return          if c: [..] else: rest      A private helper that leaves early without a value is put into the
+          rest                  ->                               form with tail returns only, so that it can be expanded at its call sites."""
+    def fold(stmts):
+        for i, st in enumerate(stmts):
+            if isinstance(st, ast.If) and not st.orelse and st.body and isinstance(st.body[-1], ast.Return) and st.body[-1].value is None and i + 1 < len(stmts) \
+                    and not any(isinstance(y, ast.Return) for b in st.body[:-1] for y in ast.walk(b)):
+                rest = stmts[i + 1:]
+                fold(rest)
+                st.body = st.body[:-1] or [ast.copy_location(ast.Pass(), st)]
+                st.orelse = rest
+                del stmts[i + 1:]
+                return
+    fold(helper.body)
 
 
 def inline_module(tree, modname):
@@ -336,6 +367,8 @@ def inline_module(tree, modname):
             qual = "%s.%s" % (modname, name) if cname is None else "%s.%s.%s" % (modname, cname, name)
             if qual in base or not name.startswith("_") or (name.startswith("__") and name.endswith("__")):
                 continue
+            if not _inlinable(f) and not _pure_decision(f):
+                _guards_to_else(f)
             if _inlinable(f) or _pure_decision(f):
                 out[name] = f
         return out
@@ -987,7 +1020,7 @@ def _inline_single_use_temps(fn):
         params.add(fn.args.vararg.arg)
     if fn.args.kwarg:
         params.add(fn.args.kwarg.arg)
-    SIMPLE = (ast.Assign, ast.AugAssign, ast.Expr, ast.Return, ast.AnnAssign)
+    SIMPLE = (ast.Assign, ast.AugAssign, ast.Expr, ast.Return, ast.AnnAssign, ast.Raise)
 
     def has_effect(e):
         return any(isinstance(y, (ast.Call, ast.Yield, ast.YieldFrom, ast.Await, ast.NamedExpr)) for y in ast.walk(e))
@@ -1054,11 +1087,17 @@ def _inline_single_use_temps(fn):
                     continue
                 if eff:
                     val = getattr(S, "value", None)
+                    if isinstance(S, ast.Raise):
+                        val = S.exc if S.cause is None else None
 
                     def leftmost(e):
                         # the sub-expression Python evaluates first
                         while True:
-                            if isinstance(e, ast.Call):
+                            if isinstance(e, ast.Call) and e.args and not isinstance(e.args[0], ast.Starred) \
+                                    and (isinstance(e.func, ast.Name) or (isinstance(e.func, ast.Attribute) and _is_chain(e.func) and _chain_root(e.func) not in ("self", "cls"))):
+                                # (looking up the callee by a plain name / a module attribute runs nothing: the first argument comes first)
+                                e = e.args[0]
+                            elif isinstance(e, ast.Call):
                                 e = e.func
                             elif isinstance(e, (ast.Attribute, ast.Subscript, ast.Await, ast.Starred)):
                                 e = e.value
@@ -1070,9 +1109,12 @@ def _inline_single_use_temps(fn):
                                 e = e.values[0]
                             elif isinstance(e, ast.UnaryOp):
                                 e = e.operand
+                            elif isinstance(e, (ast.Tuple, ast.List)) and any(not isinstance(x_, ast.Constant) for x_ in e.elts):
+                                # (constants evaluate to nothing observable: the first other element comes first)
+                                e = [x_ for x_ in e.elts if not isinstance(x_, ast.Constant)][0]
                             else:
                                 return e
-                    if not (j == k + 1 and isinstance(S, (ast.Assign, ast.Return, ast.AugAssign, ast.Expr)) and val is not None and leftmost(val) is ms[0]):
+                    if not (j == k + 1 and isinstance(S, (ast.Assign, ast.Return, ast.AugAssign, ast.Expr, ast.Raise)) and val is not None and leftmost(val) is ms[0]):
                         continue
                     if isinstance(S, ast.Assign) and any(has_effect(t) for t in S.targets):
                         continue
@@ -1487,6 +1529,61 @@ def _closure_factory_to_def(tree):
         walk(fn.body)
 
 
+def _parallel_counter_to_index(fn):
+    """   c = K                                   A local that counts the iterations of a `for v in range(n)` loop by hand - bound to an
+          for v in range(n):          for v in range(n):      integer constant right before the loop, incremented by one as the first statement of
+              c += 1            ->        ... v + (K+1) ...   the body, stored nowhere else and read only inside the loop - is the loop index plus a
+              ... c ...                                       constant: its reads are written that way and the counter is dropped."""
+    nested_names = set()
+    for n in ast.walk(fn):
+        if isinstance(n, (ast.FunctionDef, ast.AsyncFunctionDef, ast.Lambda, ast.ClassDef)) and n is not fn:
+            for y in ast.walk(n):
+                if isinstance(y, ast.Name):
+                    nested_names.add(y.id)
+        elif isinstance(n, (ast.Global, ast.Nonlocal)):
+            nested_names.update(n.names)
+
+    def process(stmts):
+        k = 0
+        while k < len(stmts):
+            st = stmts[k]
+            for fld in ("body", "orelse", "finalbody"):
+                sub = getattr(st, fld, None)
+                if isinstance(sub, list) and sub and isinstance(sub[0], ast.stmt):
+                    process(sub)
+            for h in getattr(st, "handlers", []) or []:
+                process(h.body)
+            if k + 1 < len(stmts) and isinstance(st, ast.Assign) and len(st.targets) == 1 and isinstance(st.targets[0], ast.Name) \
+                    and isinstance(st.value, ast.Constant) and type(st.value.value) is int:
+                c = st.targets[0].id
+                lp = stmts[k + 1]
+                if isinstance(lp, ast.For) and isinstance(lp.target, ast.Name) and isinstance(lp.iter, ast.Call) and isinstance(lp.iter.func, ast.Name) \
+                        and lp.iter.func.id == "range" and len(lp.iter.args) == 1 and not lp.iter.keywords and not lp.orelse and lp.body \
+                        and isinstance(lp.body[0], ast.AugAssign) and isinstance(lp.body[0].op, ast.Add) and isinstance(lp.body[0].target, ast.Name) \
+                        and lp.body[0].target.id == c and isinstance(lp.body[0].value, ast.Constant) and lp.body[0].value.value == 1 and type(lp.body[0].value.value) is int \
+                        and c not in nested_names and c != lp.target.id:
+                    stores = [y for y in ast.walk(fn) if isinstance(y, ast.Name) and y.id == c and isinstance(y.ctx, (ast.Store, ast.Del))]
+                    loads = [y for y in ast.walk(fn) if isinstance(y, ast.Name) and y.id == c and isinstance(y.ctx, ast.Load)]
+                    inside = set(id(y) for b in lp.body[1:] for y in ast.walk(b))
+                    v_stores = [y for b in lp.body for y in ast.walk(b) if isinstance(y, ast.Name) and y.id == lp.target.id and isinstance(y.ctx, (ast.Store, ast.Del))]
+                    if len(stores) == 2 and all(id(y) in inside for y in loads) and not v_stores:
+                        off = st.value.value + 1
+                        v = lp.target.id
+
+                        class Sub(ast.NodeTransformer):
+                            def visit_Name(self, node):
+                                if node.id == c and isinstance(node.ctx, ast.Load):
+                                    new = ast.Name(id=v, ctx=ast.Load()) if off == 0 else \
+                                        ast.BinOp(left=ast.Name(id=v, ctx=ast.Load()), op=ast.Add(), right=ast.Constant(value=off))
+                                    return ast.copy_location(new, node)
+                                return node
+                        lp.body = [ast.fix_missing_locations(Sub().visit(b)) for b in lp.body[1:]] or [ast.Pass()]
+                        del stmts[k]
+                        continue
+            k += 1
+    process(fn.body)
+
+
 def normalize_module(tree):
     _kwargs_to_positional(tree)
     _partial_to_def(tree)
@@ -1497,6 +1594,8 @@ def normalize_module(tree):
         _lower_bool_flags(fn)
     for fn in [n for n in ast.walk(tree) if isinstance(n, (ast.FunctionDef, ast.AsyncFunctionDef))]:
         _index_loop_to_for(fn)
+    for fn in [n for n in ast.walk(tree) if isinstance(n, (ast.FunctionDef, ast.AsyncFunctionDef))]:
+        _parallel_counter_to_index(fn)
     for fn in [n for n in ast.walk(tree) if isinstance(n, (ast.FunctionDef, ast.AsyncFunctionDef))]:
         _inline_single_use_temps(fn)
     for fn in [n for n in ast.walk(tree) if isinstance(n, (ast.FunctionDef, ast.AsyncFunctionDef))]:
